@@ -136,6 +136,13 @@ def _mk(vals, meta="M0", name="__default__"):
                        illum_wavelen=0.66, illum_polarization=(1, 0),
                        noise_sd=0.05,
                        name="img" if name == "__default__" else name)
+    elif meta == "M2":
+        # an image whose coordinate axes do not start at 0 (e.g. a region
+        # cut out of a larger frame)
+        im = data_grid(vals, spacing=(0.2, 0.1), medium_index=1.33,
+                       illum_wavelen=0.66, illum_polarization=(1, 0),
+                       name="region" if name == "__default__" else name)
+        im = im.assign_coords(x=im.x + 0.37, y=im.y - 1.3)
     else:
         im = data_grid(vals, spacing=(0.1, 0.25), medium_index=1.0,
                        illum_polarization=(0, 1), z=3.5,
@@ -585,7 +592,7 @@ def _run_subimage(case, ck):
     n_acc = 0
     for kind in ("ramp", "ints"):
         v = _vals(kind, nx, ny)
-        for meta in META:
+        for meta in META + ["M2"]:
             im3 = _mk(v, meta)
             im2 = im3.isel(z=0)
             s3, s2 = _Snap(im3), _Snap(im2)
@@ -674,9 +681,10 @@ def _zero_once(ck, v, dead, meta, what):
     from holopy.core.process import zero_filter
     from holopy.core.errors import BadImage
     nx, ny = v.shape
-    z = np.array(v, dtype=float)
+    is_int = np.asarray(v).dtype.kind in "iu"
+    z = np.array(v) if is_int else np.array(v, dtype=float)
     for d in dead:
-        z[d] = 0.0
+        z[d] = 0
     im = _mk(z, meta)
     snap = _Snap(im)
     exp = _expected_zero(v, dead, nx, ny)
@@ -698,15 +706,18 @@ def _zero_once(ck, v, dead, meta, what):
     _meta(ck, "zero-filter", out, snap, what)
     _input_meta(ck, "zero-filter", im, snap, what)
     o = np.asarray(out.values)
+    # (for integer camera frames the mean of the neighbours is in general
+    # not an integer: the values are asserted, not the dtype)
     if not ck.true("zero-filter-shape", o.shape == (1, nx, ny) and
-                   o.dtype == z.dtype, "%s: shape %r dtype %s" %
+                   (is_int or o.dtype == z.dtype), "%s: shape %r dtype %s" %
                    (what, o.shape, o.dtype)):
         return "shape"
     o = o[0]
     live = np.ones((nx, ny), bool)
     for d in dead:
         live[d] = False
-    same = bits_equal(o[live], z[live])
+    same = bool(np.array_equal(o[live], z[live])) if is_int else \
+        bits_equal(o[live], z[live])
     ck.metric("zero-filter-live-pixels", 0.0 if same else
               float(np.abs(o[live] - z[live]).max()))
     ck.true("zero-filter-live-pixels", same,
@@ -727,11 +738,13 @@ def _zero_once(ck, v, dead, meta, what):
 def _run_zero1(case, ck):
     nx, ny = case["nx"], case["ny"]
     acc = []
-    for kind in ("ramp", "bumpy"):
-        v = _vals(kind, nx, ny)
+    for kind in ("ramp", "bumpy", "ints", "ints8"):
+        v = _vals("ints" if kind == "ints8" else kind, nx, ny)
+        if kind == "ints8":
+            v = v.astype(np.uint8)
         assert (v > 0).all()
         for meta in META:
-            if kind == "bumpy" and meta == "M1":
+            if kind != "ramp" and meta == "M1":
                 continue
             acc.append(_zero_once(ck, v, [], meta, "zero_filter(%s %dx%d %s,"
                                   " no dead pixel)" % (kind, nx, ny, meta)))
